@@ -307,3 +307,86 @@ Example ids_from_statistic_refuted :
   snd (arun true ainit [Batch [(40, 1)]; ResetStats; Batch [(40, 3)]]) = [(0, [(0, 40)]); (1, [(0, 40)])] /\
   snd (arun false ainit [Batch [(40, 1)]; ResetStats; Batch [(40, 3)]]) = [(0, [(0, 40)]); (1, [(1, 40)])].
 Proof. split; vm_compute; reflexivity. Qed.
+
+(* ---- a Produce call that fails half-way (the IPC write of some record returns an error) ----
+   The records up to the failing one have been handed to their writers (new stream producers were created, schema ids
+   consumed, schema messages and dictionary deltas written) but nothing is emitted.  Since fix a8d92c38 every sub-stream is
+   closed and forgotten, so that the next batch restarts them under new schema ids; the batch id is not consumed.
+   [eats_id]: the seeded variant that takes the batch id before the payload loop. *)
+Inductive call2 := Call (c : call) | Failed (ps : list (N * N)).
+
+Definition acall2 (eats_id : bool) (a : astate) (c : call2) : astate * option (N * list (N * N)) :=
+  match c with
+  | Call c => acall false a c
+  | Failed ps =>
+      let '(st1, _) := produce_payloads (core a) ps in
+      ({| core := {| streams := []; next_sid := next_sid st1;
+                     batch_id := if eats_id then batch_id (core a) + 1 else batch_id (core a) |};
+          created_stat := created_stat a + (next_sid st1 - next_sid (core a)) |}, None)
+  end.
+
+Fixpoint arun2 (eats_id : bool) (a : astate) (h : list call2) : astate * list (N * list (N * N)) :=
+  match h with
+  | [] => (a, [])
+  | c :: tl =>
+      let '(a1, o) := acall2 eats_id a c in
+      let '(a2, os) := arun2 eats_id a1 tl in
+      (a2, match o with Some x => x :: os | None => os end)
+  end.
+
+Lemma produce_payloads_batch_id : forall ps st st1 os, produce_payloads st ps = (st1, os) -> batch_id st1 = batch_id st.
+Proof.
+  induction ps as [|p tl IH]; intros st st1 os H; cbn [produce_payloads] in H.
+  - injection H as <- <-. reflexivity.
+  - destruct (produce_payload st p) as [s1 o1] eqn:Ep. destruct (produce_payloads s1 tl) as [s2 o2] eqn:Er. injection H as <- <-.
+    rewrite (IH _ _ _ Er). destruct p as [ty key]. cbn [produce_payload] in Ep.
+    destruct (find_key key (streams st)); injection Ep as <- _; reflexivity.
+Qed.
+
+Lemma acall2_batch_id a c a1 o :
+  acall2 false a c = (a1, o) ->
+  match o with
+  | Some x => fst x = batch_id (core a) /\ batch_id (core a1) = batch_id (core a) + 1
+  | None => batch_id (core a1) = batch_id (core a)
+  end.
+Proof.
+  destruct c as [[ps|]|ps]; cbn [acall2 acall]; intros H.
+  - unfold produce_batch in H. destruct (produce_payloads (core a) ps) as [st1 os] eqn:E. injection H as <- <-.
+    cbn [fst core batch_id]. rewrite (produce_payloads_batch_id _ _ _ _ E). split; reflexivity.
+  - injection H as <- <-. reflexivity.
+  - destruct (produce_payloads (core a) ps) as [st1 os] eqn:E. injection H as <- <-. reflexivity.
+Qed.
+
+(* Every history of public calls — batches, statistics reads, failed Produce calls: the ids of the emitted batches count up
+   by one from the producer's current id. *)
+Theorem emitted_batch_ids_consecutive : forall h a a1 outs,
+  arun2 false a h = (a1, outs) -> map fst outs = map (fun i => batch_id (core a) + N.of_nat i) (seq 0 (length outs)).
+Proof.
+  induction h as [|c tl IH]; intros a a1 outs H; cbn [arun2] in H.
+  - injection H as <- <-. reflexivity.
+  - destruct (acall2 false a c) as [aa o] eqn:E1. destruct (arun2 false aa tl) as [ab os] eqn:E2. injection H as <- <-.
+    pose proof (acall2_batch_id _ _ _ _ E1) as Hid. specialize (IH _ _ _ E2).
+    destruct o as [x|].
+    + destruct Hid as [Hx Hn]. cbn [map fst length seq]. f_equal; [rewrite Hx; lia|].
+      rewrite IH, Hn. rewrite <- seq_shift, map_map. apply map_ext. intros i. lia.
+    + rewrite IH, Hid. reflexivity.
+Qed.
+
+(* after a failed call no sub-stream is live: whatever comes next opens its sub-streams afresh, under ids never used before *)
+Lemma failed_restarts_streams a ps a1 o : acall2 false a (Failed ps) = (a1, o) -> streams (core a1) = [] /\ next_sid (core a) <= next_sid (core a1) /\ o = None.
+Proof.
+  cbn [acall2]. destruct (produce_payloads (core a) ps) as [st1 os] eqn:E. intros H. injection H as <- <-. cbn [core streams next_sid].
+  split; [reflexivity|]. split; [|reflexivity].
+  clear -E. revert E. generalize (core a) as st. revert st1 os.
+  induction ps as [|p tl IH]; intros st1 os st E; cbn [produce_payloads] in E.
+  - injection E as <- <-. lia.
+  - destruct (produce_payload st p) as [s1 o1] eqn:Ep. destruct (produce_payloads s1 tl) as [s2 o2] eqn:Er. injection E as <- <-.
+    specialize (IH _ _ _ Er). destruct p as [ty key]. cbn [produce_payload] in Ep.
+    destruct (find_key key (streams st)); injection Ep as <- _; cbn [next_sid] in *; lia.
+Qed.
+
+(* the seeded variant: a failed call consumes a batch id *)
+Example failed_call_eats_id_refuted :
+  map fst (snd (arun2 true ainit [Call (Batch [(40, 1)]); Failed [(40, 1); (41, 2)]; Call (Batch [(40, 1)])])) = [0; 2] /\
+  snd (arun2 false ainit [Call (Batch [(40, 1)]); Failed [(40, 1); (41, 2)]; Call (Batch [(40, 1)])]) = [(0, [(0, 40)]); (1, [(2, 40)])].
+Proof. split; vm_compute; reflexivity. Qed.
